@@ -315,6 +315,45 @@ def check_foreign(res, exp, serial, little, order, extra):
                       % (little, order, rep['extra'], rep['exp'],
                          '; '.join(diffs)), rep, size=len(key) + len(extra))
     res.outcome(('foreign', little, len(order), len(extra)))
+    if diffs or extra or not hasattr(m, '_marshal'):
+        return
+    # the parsed foreign message serialised again (the bus does this to every
+    # message it forwards): still the same well-formed message, whichever
+    # byte order it arrived in
+    res.count('transitions')
+    try:
+        ref = R.parse_message(raw)
+        m.sender = ':1.77'
+        m._marshal(False)
+        p2 = R.parse_message(m.rawMessage)
+        want_fields = dict(exp['fields'])
+        want_fields['sender'] = ':1.77'
+        if exp['sig']:
+            want_fields['signature'] = exp['sig']
+        probs = []
+        if p2['fields'] != want_fields:
+            probs.append('header fields %r, expected %r'
+                         % (p2['fields'], want_fields))
+        if p2['flags'] != exp['flags']:
+            probs.append('flags %d, expected %d' % (p2['flags'],
+                                                    exp['flags']))
+        if p2['serial'] != serial or p2['type'] != exp['type']:
+            probs.append('serial/type %r/%r' % (p2['serial'], p2['type']))
+        if p2['body_plain'] != ref['body_plain']:
+            probs.append('body %r, arrived as %r' % (p2['body_plain'],
+                                                     ref['body_plain']))
+    except R.RefError as e:
+        probs = ['not well-formed: %s' % e]
+    except Exception as e:
+        probs = ['raised %r' % (e,)]
+    if probs:
+        res.violation('%s/reserialise-foreign/%s/%s/%s'
+                      % (PROP, 'little' if little else 'big',
+                         probs[0].split()[0], key),
+                      'a %s-endian encoding of %r parsed and serialised '
+                      'again: %s' % ('little' if little else 'big',
+                                     rep['exp'], '; '.join(probs)), rep,
+                      size=len(key))
 
 
 def _task(task):
